@@ -1,6 +1,7 @@
 /-
   C12 — bindings are lexical and transparent; pipes and later selects keep their inputs.
 -/
+import Jawk.Lemmas.Subst
 import Jawk.Model.Eval
 import Jawk.Model.Stages
 namespace Jawk.C12
@@ -110,5 +111,80 @@ theorem select_stage_keeps_context (orc : Oracles) (sink : SinkCfg) (n : Nat) (n
 
 /-- non-vacuity: a context with parents, and a binding that leaves them alone -/
 example : (({ input := .null, parents := [.bool true] } : Ctx).withVariable ['x'] .null).parents = [.bool true] := rfl
+
+
+/-! ### substitution, by induction over ALL expressions (helper file `Jawk/Lemmas/Subst.lean`)
+
+`substVar n x` replaces the free occurrences of `:n` by the constant `x` (an inner `(set "n" …)` with the
+literal name `n` shadows `n` in its body; under a `set` with a computed name substitution stops — the proved
+counter-example `computed_name_rebinds` shows it must).  Macro bodies are evaluated in the context of their USE
+(`macro_is_body`), i.e. macros are late-bound: a free `:x` inside a macro body reads the binding current where
+`@m` is used, not where it was defined — proved below (`macro_bodies_are_late_bound`), replayed on the binary and
+recorded as known finding F21, because the property's "replace every :n in scope" reading and its "replace @n by
+the macro body" reading disagree exactly there. -/
+
+/-- a bound variable IS its value: for every expression, context and depth -/
+theorem subst_var (orc : Oracles) (n : Str) (x : JV) (fuel : Nat) (e : Expr) (ctx : Ctx)
+    (h : ctx.getVariable n = some x) : eval orc fuel e ctx = eval orc fuel (Subst.substVar n x e) ctx :=
+  Subst.subst_var orc n x fuel e ctx h
+
+/-- `(set n v e)` evaluates `e` exactly as if every free `:n` were replaced by the value — and changes nothing
+else `e` can observe (`set_changes_nothing_else`) -/
+theorem set_is_substitution (orc : Oracles) (fuel : Nat) (n : Str) (v e : Expr) (ctx : Ctx) (x : JV)
+    (hv : eval orc fuel v ctx = .ok (some x)) :
+    eval orc (fuel + 1) (.call "set" [.const (.str n), v, e]) ctx =
+      eval orc fuel (Subst.substVar n x e) (ctx.withVariable n x) :=
+  Subst.set_is_substitution orc fuel n v e ctx x hv
+
+theorem set_changes_nothing_else (ctx : Ctx) (n : Str) (x : JV) :
+    (ctx.withVariable n x).input = ctx.input ∧ (ctx.withVariable n x).parents = ctx.parents ∧
+    (ctx.withVariable n x).results = ctx.results ∧ (ctx.withVariable n x).defs = ctx.defs ∧
+    (ctx.withVariable n x).ictx = ctx.ictx ∧
+    (∀ k, k ≠ n → (ctx.withVariable n x).getVariable k = ctx.getVariable k) ∧
+    (ctx.withVariable n x).getVariable n = some x := Subst.set_frame ctx n x
+
+/-- `(define n m e)`: every result of `e` under the binding is a result of `e` with `@n` replaced by the body,
+and conversely (one more unit of depth, which `@n` itself costs) -/
+theorem define_is_substitution (orc : Oracles) (fuel : Nat) (n : Str) (m e : Expr) (ctx : Ctx) (r : Option JV) :
+    (eval orc (fuel + 2) (.call "define" [.const (.str n), m, e]) ctx = .ok r →
+      eval orc (fuel + 1) (Subst.substMacro n m e) (ctx.withDefinition n m) = .ok r) ∧
+    (eval orc fuel (Subst.substMacro n m e) (ctx.withDefinition n m) = .ok r →
+      eval orc (fuel + 2) (.call "define" [.const (.str n), m, e]) ctx = .ok r) :=
+  ⟨Subst.define_is_substitution orc fuel n m e ctx r, Subst.define_is_substitution_conv orc fuel n m e ctx r⟩
+
+/-- more depth never changes a result: `overflow` is the only outcome that depends on the budget -/
+theorem eval_fuel_mono (orc : Oracles) {f f' : Nat} {e : Expr} {ctx : Ctx} {r : Option JV}
+    (h : eval orc f e ctx = .ok r) (hf : f ≤ f') : eval orc f' e ctx = .ok r := Subst.eval_fuel_mono orc h hf
+
+/-- `--set n=v` in front of any later stages: those stages behave exactly as with `:n` replaced by `v` -/
+theorem presets_are_substitution (orc : Oracles) (vars : List (Str × JV)) (defs : List (Str × Expr))
+    (cs : List StageCfg) (st : StageSt) (sts : List StageSt) (ctx : Ctx) (n : Str) (x : JV)
+    (hn : Ctx.lookup vars n = some x) (hnp : ∀ c ∈ cs, Subst.isPreset c = false) :
+    Pipe.processP (Pipe.evalT orc) (.preset vars defs :: cs.map (Subst.substStage n x)) (st :: sts) ctx =
+      Pipe.processP (Pipe.evalT orc) (.preset vars defs :: cs) (st :: sts) ctx :=
+  Subst.presets_are_substitution orc vars defs cs st sts ctx n x hn hnp
+
+/-- every `--select` sees the same input, parents, bindings and input context as the first; only the list of
+earlier results grows, and the i-th value lands in column i -/
+theorem selects_see_same_ctx (ev : Expr → Ctx → Option JV) (sels : List (Str × Expr)) (c : Ctx) (i : Nat)
+    (t : Str) (e : Expr) (hi : sels[i]? = some (t, e)) :
+    let ci := Subst.selCtx ev (sels.take i) c
+    ci.input = c.input ∧ ci.parents = c.parents ∧ ci.vars = c.vars ∧ ci.defs = c.defs ∧ ci.ictx = c.ictx ∧
+    Subst.selCtx ev (sels.take (i + 1)) c = ci.withResult t (ev e ci) ∧
+    (Subst.selCtx ev sels c).results[c.results.length + i]? = some (t, ev e ci) :=
+  Subst.selects_see_same_ctx ev sels c i t e hi
+
+/-- `(| e₁ … eₖ)`: each stage is evaluated with its predecessor's value as input and the chain of earlier
+inputs as parents; bindings and input context are those of the pipe -/
+theorem pipe_frame (c : Ctx) (vs : List JV) :
+    (Subst.pipeCtx c vs).input :: (Subst.pipeCtx c vs).parents = vs.reverse ++ c.input :: c.parents ∧
+    (Subst.pipeCtx c vs).vars = c.vars ∧ (Subst.pipeCtx c vs).defs = c.defs ∧ (Subst.pipeCtx c vs).ictx = c.ictx :=
+  Subst.pipeCtx_frame c vs
+
+/-- F21 (known finding), proved on the model and replayed on the binary: macro bodies are late-bound.
+`(set "x" 1 (define "m" :x (set "x" 2 @m)))` is 2, while replacing `:x` by 1 first gives 1 -/
+theorem macro_bodies_are_late_bound :
+    eval {} 10 Subst.Ex.dyn {} = .ok (some (Subst.Ex.num 2)) ∧
+    eval {} 10 Subst.Ex.dynSubst {} = .ok (some (Subst.Ex.num 1)) := Subst.Ex.define_body_dynamic
 
 end Jawk.C12
